@@ -20,7 +20,8 @@ def _ref_for(pkgname):
 
 
 GO = dict(module="extras", pkg="outbounds", pkgname="outbounds",
-          files={"zz_verif_c09_test.go": "c09/c09_test.go", "zz_verif_c09ref_test.go": _ref_for("outbounds")}, run="TestVerifC09")
+          files={"zz_verif_c09_test.go": "c09/c09_test.go", "zz_verif_c09engx_test.go": "c09/c09engx_test.go",
+                 "zz_verif_c09ref_test.go": _ref_for("outbounds")}, run="TestVerifC09")
 # concurrency class: in-package harness of extras/outbounds/acl (gates around the rule matchers, goroutine stress)
 GO_CONC = dict(module="extras", pkg="outbounds/acl", pkgname="acl",
                files={"zz_verif_c09conc_test.go": "c09/c09conc_test.go", "zz_verif_c09ref_test.go": _ref_for("acl")},
@@ -54,7 +55,15 @@ RULE = ("seeded generator: rule lists (1-7 rules) over a small per-case universe
         "IPv6 groups (every position and length of zero runs, ties), groups with 1-4 hex digits, dotted-decimal digit-count boundaries, "
         "4-byte vs v4-mapped forms and near misses of the mapping, nil and lengths other than 4 / 16; the model's rendering is compared "
         "byte for byte, the harness checks on the implementation that no rendering contains '|', that equal renderings mean equal "
-        "addresses and that net.ParseIP reads the rendering back.")
+        "addresses and that net.ParseIP reads the rendering back. "
+        "Engine entry points (engx): engines built from generated rule files are called through PluggableOutbound.TCP / UDP / CheckUDP "
+        "(recording outbounds; user-defined direct, built-in or user-defined reject) with requests as a resolver hands them over: "
+        "ResolveInfo nil, {IPv4, IPv6}, or {IPv4, IPv6, Err} - v4 only + error, v6 only + error, both + error, none + error, none + nil "
+        "(partial resolver failures) - over hosts whose addresses sit inside / at the edge of the generated IP and CIDR rules; every call "
+        "is compared with the first-match decision of the reference evaluator on exactly (Host, IPv4, IPv6), with the same call made "
+        "with only the error flipped, and with model/C09_Engine.v (outbound, method, rewrite, Host and ResolveInfo the outbound saw). "
+        "All classes: hosts whose v6 slot holds the IPv4-mapped form of an address inside / next to a generated IPv4 prefix (v4 slot "
+        "empty or different), and prefixes written in mapped form (::ffff:a.b.c.d/96+n) asked with plain 4-byte addresses.")
 ASSUMPTIONS = [
     "host names and patterns are ASCII and no query label starts with 'xn--' (idna.ToUnicode is then the identity; read in x/net/idna, not "
     "modelled). ENFORCED, not only assumed: the generator asserts it on every case and the Go harness asserts on every case that all rule "
@@ -320,6 +329,21 @@ def gen_one(rng, kind, tier, force_valid=False):
         else:
             h["n"] = rng.choice(names)
         hosts.append(h)
+    # the v6 slot holds the IPv4-mapped form of an address inside / next to a generated IPv4 rule (an AAAA answer
+    # ::ffff:a.b.c.d), the v4 slot empty or a different address; and the converse (a plain 4-byte address in the v6 slot)
+    a4s = [a for a in addrs if len(a) == 4]
+    for _ in range(rng.randint(1, 3)):
+        a = rng.choice(a4s)
+        w = rng.randrange(4)
+        n = rng.choice(names) if rng.random() < 0.5 else "m.example.org"
+        if w == 0:
+            hosts.append({"n": n, "v4": "", "v6": (MAPPED + a).hex()})
+        elif w == 1:
+            hosts.append({"n": n, "v4": flip(a, rng.choice([0, 7, 8, 31])).hex(), "v6": (MAPPED + a).hex()})
+        elif w == 2:
+            hosts.append({"n": n, "v4": "", "v6": a.hex()})
+        else:
+            hosts.append({"n": n, "v4": rng.choice(u.v6).hex(), "v6": (MAPPED + a).hex()})
     # distinct queries: families around port bounds and protocols
     pcs = set(u.ports)
     for a, b in u.prange:
@@ -358,6 +382,59 @@ def gen_one(rng, kind, tier, force_valid=False):
             mode = rng.random()
     qs = qs[:qlen]
     return {"k": kind, "obs": obs, "rules": rules, "cache": cache, "hosts": hosts, "qs": qs, "valid": valid}
+
+
+def gen_engx(rng, tier):
+    """engine entry points: a rule file, recording outbounds (one of them named direct) and requests whose ResolveInfo is
+    nil / without error / with an error NEXT TO its addresses (partial resolver failure), per host; qs = (host, entry point, port)"""
+    c = gen_one(rng, "eng", tier, force_valid=rng.random() < 0.9)
+    c["k"] = "engx"
+    if not any(o.lower() == "direct" for o in c["obs"]):
+        c["obs"] = c["obs"] + ["direct"]
+    hosts = []
+    for h in c["hosts"]:
+        h = dict(h)
+        if h["v4"] == "" and h["v6"] == "":
+            h["e"] = rng.choice([0, 1, 2, 2])
+        else:
+            h["e"] = rng.choice([1, 2, 2])
+        hosts.append(h)
+    # every host also under the other error flag somewhere (same index space: appended)
+    n0 = len(hosts)
+    for i in range(n0):
+        if hosts[i]["e"] and rng.random() < 0.4:
+            h = dict(hosts[i])
+            h["e"] = 3 - h["e"]
+            hosts.append(h)
+    c["hosts"] = hosts
+    qs = []
+    for q in c["qs"]:
+        hi = q[0] if rng.random() < 0.7 else rng.randrange(len(hosts))
+        op = 1 if q[1] == 1 else (rng.choice([2, 3]) if q[1] == 2 else rng.choice([1, 2, 3]))
+        qs.append([hi, op, q[2]])
+    c["qs"] = qs
+    return c
+
+
+def fixed_engx_cases():
+    """a CIDR / IP rule in front of a catch-all, one address family resolved and the other failed, for every entry point"""
+    H = lambda n, v4=b"", v6=b"", e=1: {"n": n, "v4": v4.hex(), "v6": v6.hex(), "e": e}
+    rules = [{"ob": "reject", "addr": "10.0.0.0/8", "pp": "", "hj": ""},
+             {"ob": "ob2", "addr": "fd00::/8", "pp": "", "hj": ""},
+             {"ob": "ob2", "addr": "192.168.0.0/16", "pp": "*/22", "hj": "192.168.0.1"},
+             {"ob": "direct", "addr": "2001:db8::1", "pp": "udp", "hj": "2001:db8::53"},
+             {"ob": "ob1", "addr": "suffix:example.com", "pp": "tcp/443", "hj": ""},
+             {"ob": "ob1", "addr": "all", "pp": "", "hj": ""}]
+    a10, a192, afd, adb = bytes([10, 1, 2, 3]), bytes([192, 168, 7, 7]), bytes([0xfd] + [0] * 14 + [1]), bytes([0x20, 1, 0xd, 0xb8] + [0] * 11 + [1])
+    hosts = []
+    for e in (1, 2):
+        hosts += [H("intranet.example", a10, b"", e), H("intranet6.example", b"", afd, e), H("nas.example", a192, b"", e),
+                  H("both.example", a10, afd, e), H("dns.example", b"", adb, e), H("nowhere.example", b"", b"", e),
+                  H("www.example.com", bytes([8, 8, 8, 8]), b"", e), H("mapped.example", b"", MAPPED + a10, e),
+                  H("www.example.com", b"", MAPPED + a192, e)]
+    hosts.append(H("nowhere.example", b"", b"", 0))
+    qs = [[hi, op, port] for hi in range(len(hosts)) for op in (1, 2, 3) for port in (22, 443)]
+    return [{"k": "engx", "obs": ["ob1", "ob2", "direct"], "rules": rules, "cache": 1024, "hosts": hosts, "qs": qs, "valid": True}]
 
 
 def fixed_cases():
@@ -607,9 +684,12 @@ def gen(rng, tier):
         cases.append(gen_one(rng, "acl", tier))
     for _ in range(50 * scale):
         cases.append(gen_one(rng, "eng", tier))
+    cases += fixed_engx_cases()
+    for _ in range(60 * scale):
+        cases.append(gen_engx(rng, tier))
     for c in cases:
         check_name_assumption(c)
-        if c["k"] == "eng":
+        if c["k"] in ("eng", "engx"):
             text, nums = eng_text(rng, c["rules"])
             c["text"], c["lines"] = text.hex(), nums
     cases += fixed_file_cases()
@@ -647,6 +727,23 @@ def to_coq(c, o):
                                              hosts, ";".join(cb(bytes.fromhex(x)) for x in o["hstrs"]))
     if "cerr" not in o:
         return None
+    if c["k"] == "engx":
+        hosts = "[" + ";".join("(mkHost %s %s %s,%d)" % (cb(h["n"]), cb(bytes.fromhex(h["v4"])), cb(bytes.fromhex(h["v6"])), h["e"])
+                               for h in c["hosts"]) + "]"
+        qs = "[" + ";".join("(%d%%nat,%d,%d)" % (q[0], q[1], q[2]) for q in c["qs"]) + "]"
+        obs = "[" + ";".join("(%s,%d)" % (cb(n), i + 1) for i, n in enumerate(c["obs"])) + "]"
+        pool, idx, seen = [], [], {}
+        if not o["cerr"]:
+            if len(o.get("ans", [])) != len(c["qs"]):
+                return None  # a call was inconsistent / panicked: reported by the harness verdict
+            for a in o["ans"]:
+                t = "(%d,%d,%d,%s,%s,%d,%s)" % (a[0], a[1], a[2], cb(bytes.fromhex(a[3])), cb(bytes.fromhex(a[4])), a[5], cb(bytes.fromhex(a[6])))
+                if t not in seen:
+                    seen[t] = len(pool)
+                    pool.append(t)
+                idx.append(seen[t])
+        exp = "None" if o["cerr"] else "(Some [" + ";".join(str(i) for i in idx) + "]%nat)"
+        return "CEngX %s %s %s %s [%s] %s" % (obs, cb(bytes.fromhex(c["text"])), hosts, qs, ";".join(pool), exp)
     rules = "[" + ";".join("mkTRule %s %s %s %s" % (cb(r["ob"]), cb(r["addr"]), cb(r["pp"]), cb(r["hj"])) for r in c["rules"]) + "]"
     hosts = "[" + ";".join("mkHost %s %s %s" % (cb(h["n"]), cb(bytes.fromhex(h["v4"])), cb(bytes.fromhex(h["v6"]))) for h in c["hosts"]) + "]"
     qs = "[" + ";".join("(%d%%nat,%d,%d)" % (q[0], q[1], q[2]) for q in c["qs"]) + "]"
@@ -686,6 +783,11 @@ def klass(c, o):
         return c["k"] + ":compile-error"
     if "ans" not in o:
         return c["k"] + ":not-run"
+    if c["k"] == "engx":
+        obs = set(a[0] for a in o["ans"])
+        part = any(c["hosts"][q[0]]["e"] == 2 and (c["hosts"][q[0]]["v4"] or c["hosts"][q[0]]["v6"]) for q in c["qs"])
+        return "engx:outcomes=%d%s%s%s%s" % (min(len(obs), 3), ":reject" if 1001 in obs else "", ":hijack" if any(a[2] == 1 for a in o["ans"]) else "",
+                                             ":error-with-addresses" if part else "", "" if o.get("ref") else ":noref")
     obs = set(a[0] for a in o["ans"])
     hij = any((a[1] if c["k"] == "acl" else a[1] == 1) for a in o["ans"])
     return "%s:cache=%s:outcomes=%d%s%s%s" % (c["k"], c["cache"], min(len(obs), 3), ":default" if (0 in obs) else "",
@@ -700,6 +802,8 @@ def nontrivial(c, o):
     if o.get("cerr") or "ans" not in o:
         return False
     distinct = len(set(tuple(q) for q in c["qs"]))
+    if c["k"] == "engx":
+        return len(set((a[0], a[2]) for a in o["ans"])) >= 2
     outcomes = len(set((a[0], a[1]) for a in o["ans"]))
     return (distinct > c["cache"] and distinct < len(c["qs"])) or outcomes >= 2
 
@@ -722,6 +826,8 @@ def fingerprint(c, o):
         return "acl-ip-string-assumption"
     if "ParseTextRules" in why or c.get("k") == "file":
         return "acl-line-parser"
+    if "depends on ResolveInfo.Err" in why:
+        return "acl-engine-decision-depends-on-resolve-error"
     if "rewritten inconsistently" in why:
         return "acl-engine-rewrite"
     m = re.search(r"port (\d+)\)", why)
@@ -731,7 +837,7 @@ def fingerprint(c, o):
             mm = re.search(r"/\s*0+(?:-(\d+))?\s*$", r["pp"])
             if mm and port > int(mm.group(1) or 0):
                 return "acl-port-start-0-matches-any"
-        return "acl-engine-not-first-match" if c["k"] == "eng" else "acl-not-first-match"
+        return "acl-engine-not-first-match" if c["k"] in ("eng", "engx") else "acl-not-first-match"
     return None
 
 
@@ -1036,7 +1142,8 @@ def replay(ctx, path):
 
 LEVEL_TEXT = ("Machine-checked Coq theorems over a statement-by-statement Gallina model of acl.Compile (text front end incl. the "
               "net/netip address parsers), compiledRule.Match, the matchers, compiledRuleSetImpl.Match with its decision cache and "
-              "aclEngine.handle: for every rule list, every query and every history of queries, under every eviction behaviour of the "
+              "aclEngine.handle and the entry points TCP / UDP / CheckUDP on requests whose ResolveInfo carries an error next to its addresses "
+              "(the lookup is made on exactly Host, ResolveInfo.IPv4, ResolveInfo.IPv6; the error is never read): for every rule list, every query and every history of queries, under every eviction behaviour of the "
               "cache, each answer is the outbound and hijack address of the first rule in file order whose pattern, protocol and port "
               "range match (default when none), invariant under case and trailing dots of the name - also stated on the TEXT of a rule file "
               "(line parser = the language of the regular expression, comments, blank lines, file order = line order, round trip with a "
